@@ -23,7 +23,7 @@ type monitor struct {
 	ourID      byte
 	ourData    []byte
 	ourByTimer bool // latest Configure-Request was sent by the restart-timer callback
-	peerAcked  bool   // a Configure-Ack carrying ourID was delivered after that request and no newer request was sent
+	peerAcked  bool // a Configure-Ack carrying ourID was delivered after that request and no newer request was sent
 	hasPeer    bool
 	peerID     byte
 	peerData   []byte
